@@ -12,8 +12,9 @@ LEVEL = 'proof'
 PROPS = ['Props/C04.v', 'Findings/C04.v']
 GEN = [('Gen/Priority.v', priority.generate)]
 TRUSTED = [
-    'py2coq scanner tools/py2coq/priority.py: the @priority(k) table, the `>=` rule of the decorator and the layout of every post<Node> method of '
-    'PythonTranslator are re-read from /repo on every run (any unrecognised change refuses to generate the model); its output is cross-checked by exact '
+    'py2coq scanner tools/py2coq/priority.py: the @priority(k) table, the `>=` rule of the decorator, the helpers receiver_src / joinedstr_body / formattedvalue_src and the '
+    'layout of every post<Node> method of PythonTranslator are re-read from /repo on every run (bodies before and after the repairs 2e38fbd / 18f54e0 are recognised; any other '
+    'change refuses to generate the model); its output is cross-checked by exact '
     'text equality of the model printer with the real ast2src on every generated tree',
     'hand-written printer model Model/C04Expr.v (layouts, token texts) tied to the real ast2src by that text equality (Tie B, vm_compute booleans)',
     'REFERENCE SEMANTICS, hand-written: Python\'s expression grammar as level tables prec/req and as the parser Model/C04Parse.v; validated on every run '
@@ -22,18 +23,28 @@ TRUSTED = [
     'output of the real printer (same tree or SyntaxError/None)',
     'Python mirrors of the Coq tables (tools/c04_gen.py) are compared entry by entry with the Coq definitions inside Coq on every run',
     'tokens are the unit of the parser model: lexing (e.g. `1.real`, nested quotes inside f-strings) is outside the model',
-    'search oracle: eval(compile(tree)) vs eval(compile(ast2src(tree))) over recording values (tools/c04_eval.py); end-to-end route on in-memory SQLite',
+    'hand-written model Model/C04Ext.v of PreTranslator (external / constant marking, contexts of for-clause targets, lambda parameters and subquery targets, final pass) and of '
+    'the extractor keys, tied on every run node for node to the real PreTranslator / create_extractors on generated query bodies (tools/c04_ext.py); the callee classification of '
+    'postCall (an eval() of the dotted name in the caller\'s scope) is an oracle argument of the model',
+    'REFERENCE SEMANTICS, hand-written: Model/C04Eval.v (integers, strings, tuples), validated against CPython on typed random trees on every run',
+    'search oracles: eval(compile(tree)) vs eval(compile(ast2src(tree))) over recording values (tools/c04_eval.py); the marking property checked on the real PreTranslator; real '
+    'extract_vars keys / values over integer scopes with closure cells; end-to-end route on in-memory SQLite (string and generator queries, the decompiler factored out)',
 ]
 ASSUMPTIONS = [
     'trees are those ast.parse produces for the supported node kinds (36 kinds incl. conditional, lambda with positional parameters, calls with */** and keywords, '
     'subscripts with slices and index tuples, displays, f-strings with conversions and literal format specs); a negative numeric constant (only produced by '
     'constant folding) is covered by the table theorem and the search but not by the parser theorem (its reparse is a UnaryOp node)',
-    'set/dict displays, comprehensions, await/yield, walrus, matrix multiplication, lambda defaults and keyword-only parameters, nested format specs are outside the Coq model '
-    '(see notes/C04.md)',
-    'C04_print_parse is stated with existential fuel: for all sufficiently large fuel the parser returns the tree',
+    'set/dict displays and generator expressions are in the marking model only (not printable by the printer / parser model); list/set/dict comprehensions, await/yield, walrus, '
+    'matrix multiplication, lambda defaults and keyword-only parameters, nested format specs are outside the Coq model (see notes/C04.md)',
+    'C04_print_parse is stated with existential fuel: for all sufficiently large fuel the parser returns the tree; C04_print_parse_unique: no fuel gives another tree',
+    'C04_bound_value is stated for the value fragment of Model/C04Eval.v (integers, strings, tuples; names, literals, + - *, unary -, not, and/or, comparison chains, conditional, '
+    'indexing) and for an external that is itself well-formed for the printer; the query body only needs the shape mwf',
+    'extractors_cache (the marking of a code key is computed once, with the callee classification of the first call) and the normalisation of values in extract_vars are outside the model',
 ]
 RULE = ('exhaustive: every allowed (parent kind, position class, child kind) triple in several contexts (first / middle / last operand); random: seeded deep trees '
-        '(depth 1-5) over all node kinds; per tree one Coq boolean per tie (text equality with ast2src, model parser vs ast.parse, reference text vs mirror, wf). '
+        '(depth 1-5) over all node kinds; per tree one Coq term with a code per tie (text equality with ast2src, model parser vs ast.parse, reference text vs mirror, wf); '
+        'query bodies `(p for p in P for q in Q if <tree>)` over trees with query variables, special / const calls, dict / set displays and subqueries: external set and extractor '
+        'texts model vs real; typed trees for the evaluation semantics vs CPython. '
         'non-trivial = the tree contains a triple at which the grammar requires parentheses, or an f-string with spec/brace/conversion; distinct = distinct canonical trees')
 
 HEADER = ('From Coq Require Import ZArith List Bool Arith.\nImport ListNotations.\n'
@@ -324,7 +335,7 @@ def corr_trees(ctx):
                 if c == 'Const' and i == 0 and p in ('Attribute', 'Call', 'Subscript'): child = ('Const', "'s'", [])     # not an integer literal (lexical)
                 for t in G.variants_for(p, i, child):
                     if G.wf(t, parse_model=False): add(t, 'triple')
-    n = ctx.scale(500, 6000)
+    n = ctx.scale(500, 4500)
     g = G.Gen(ctx.rng, negconst=True, invert=tbl['kind_ok']['Invert'], short_idx=tbl['short_idx'], braces=True, specs=True)
     for _ in range(n):
         t = g.expr(ctx.rng.choice([1, 2, 2, 3, 3, 4, 5]))
@@ -453,7 +464,7 @@ def correspondence(ctx):
     fc, cctx = X.coq_fclass(), '[' + ';'.join(G.cstr(v) for v in X.QUERY_VARS) + ']'
     dist.update({'marking_trees': 0, 'marking_externals': 0, 'marking_trees_with_query_vars': 0})
     xtrees = [G.from_ast(ast.parse(x, mode='eval').body) for x in MARKING_CORPUS]
-    for _ in range(ctx.scale(350, 3500)):
+    for _ in range(ctx.scale(350, 2500)):
         xtrees.append(xg.expr(ctx.rng.choice([1, 2, 3, 3, 4])))
     for t in xtrees:
         if not G.wf(t, parse_model=False): continue
@@ -491,7 +502,7 @@ def correspondence(ctx):
     fg = G.FragGen(ctx.rng)
     cenv = G.coq_env(G.FragGen.SCOPE)
     dist.update({'eval_semantics_cases': 0, 'eval_semantics_python_raises': 0})
-    for _ in range(ctx.scale(250, 2500)):
+    for _ in range(ctx.scale(250, 1500)):
         fg.confused = False
         t = fg.gen(ctx.rng.choice(['int', 'int', 'str', 'tup']), ctx.rng.choice([1, 2, 3, 4]))
         try:
